@@ -283,6 +283,18 @@ def run_enum(shard: dict, res: Res) -> None:
                     stmt = render(m, shape, "", name, "lower")
                     judge(res, supported, m, shape, "", v, stmt, f"*=0x008000\n{name} := {v:#x}\n{stmt}\n", key_of(m, shape, "", v), True)
                     res.count("register_like_name_cases")
+        # the statement is the last thing in the source: no final newline, blanks, a comment, a one-character operand
+        for shape, tpl, isa_shape in SHAPES:
+            if isa_shape is None:
+                continue
+            for vtext, v, pre in (("7", 7, ""), ("n", 7, "n := 7\n"), ("0x1234", 0x1234, "")):
+                if isa_shape == "imp" and vtext != "7":
+                    continue
+                for ending in ("", " ", "\t", ";c", " ; c", "\n\n", "\n;c", "\n  "):
+                    stmt = render(m, shape, "", "" if isa_shape == "imp" else vtext, "lower")
+                    judge(res, supported, m, shape, "", None if isa_shape == "imp" else v, stmt, f"*=0x008000\n{pre}{stmt}{ending}",
+                          key_of(m, shape, "", None if isa_shape == "imp" else v), True)
+                    res.count("last_statement_cases")
         # spellings of the same value must not change the inferred width
         for shape, tpl, _ in SHAPES:
             if shape == "imp":
